@@ -96,6 +96,13 @@ impl ConnectionValidator {
         client_not_expired & client_elapsed_not_in_far_future
     }
 
+    /// Verification hook: override the whole-second clock (the field is otherwise only ever
+    /// set from `Instant::now()`)
+    #[cfg(aquatic_verif)]
+    pub fn verif_set_seconds_since_start(&mut self, seconds: u32) {
+        self.seconds_since_start = seconds;
+    }
+
     pub fn update_elapsed(&mut self) {
         if let Some(dur) = Instant::now().checked_duration_since(self.start_time) {
             self.seconds_since_start = dur.as_secs() as u32;
